@@ -45,6 +45,7 @@ class Unit:
         self.attach = None
         self.harnesses = []  # dicts: name, tier, timeout, bounded
         self.canaries = []
+        self.native_canaries = []  # must FAIL when executed natively (vacuity guard of tier=native)
         self.needs = []
         self.public = False
         for line in open(path):
@@ -66,6 +67,9 @@ class Unit:
             m = re.match(r"// @canary (\S+)", line)
             if m:
                 self.canaries.append(m.group(1))
+            m = re.match(r"// @native-canary (\S+)", line)
+            if m:
+                self.native_canaries.append(m.group(1))
             if line.startswith("// @pub"):
                 self.public = True  # attached as `pub mod` (visible to another crate of the workspace)
             m = re.match(r"// @needs (\S+)", line)
@@ -366,6 +370,90 @@ def playback(ws, unit, fq_harness, check_ids, timeout_s, log_dir):
         tests = re.findall(r"(#\[test\]\s*fn kani_concrete_playback_\w+\(\)\s*\{.*?\n\})", out, re.S)
     if not tests:
         return {"reproduced": None, "why": "no concrete playback test was generated", "gen_log": out[-4000:]}
+    return _run_native_tests(ws, unit, tests, log_dir, env, target)
+
+
+def native_batch(ws, items, log_dir):
+    """`tier=native` harnesses: literal instances (no symbolic value drawn) of functions CBMC
+    does not finish, executed natively against the real code -- a BOUNDED stand-in, never
+    counted as proved. One `cargo kani playback` run for all of them.
+
+    items: [(unit, harness_name)]. Returns {harness_name: {"status": "ok"|"failed"|"unusable"|"no-result",
+    "tags_hit": [...], "output": str}}."""
+    env = dict(os.environ)
+    env["CARGO_NET_OFFLINE"] = "true"
+    env.pop("RUSTUP_TOOLCHAIN", None)
+    env["RUSTFLAGS"] = "--cap-lints=warn"
+    target = os.path.join(TARGET_DIR, os.path.basename(ws.dir))
+    env["CARGO_TARGET_DIR"] = target + "-playback"
+    os.makedirs(log_dir, exist_ok=True)
+    by_unit = {}
+    for u, h in items:
+        by_unit.setdefault(u.name, (u, []))[1].append(h)
+    restore = []
+    try:
+        for uname, (u, hs) in by_unit.items():
+            unit_copy = os.path.join(ws.dir, "verif_native_%s.rs" % uname)
+            shutil.copy(u.path, unit_copy)
+            with open(unit_copy, "a") as f:
+                for h in hs:
+                    f.write("\n#[test]\nfn kani_concrete_playback_%s_native0() {\n"
+                            "    let concrete_vals: Vec<Vec<u8>> = vec![];\n"
+                            "    kani::concrete_playback_run(concrete_vals, %s);\n}\n" % (h, h))
+            src = os.path.join(ws.dir, u.attach)
+            s = open(src).read()
+            restore.append((src, s))
+            s2 = re.sub(r'#\[path = "[^"]*"\]\n(pub(?:\(crate\))? mod verif_%s;)' % re.escape(uname),
+                        lambda m: '#[path = "%s"]\n%s' % (unit_copy, m.group(1)), s)
+            open(src, "w").write(s2)
+        cmd = ["cargo", "kani", "playback", "-p", ws.package, "-Z", "concrete-playback", "--", "_native0", "--test-threads", "4"]
+        try:
+            r = subprocess.run(cmd, cwd=ws.dir, capture_output=True, text=True, env=env, timeout=3600)
+            nat = r.stdout + r.stderr
+        except subprocess.TimeoutExpired:
+            nat = "native run timed out"
+    finally:
+        for src, s in restore:
+            open(src, "w").write(s)
+    open(os.path.join(log_dir, "native-batch.log"), "w").write(nat)
+    out = {}
+    for u, h in items:
+        tname = "kani_concrete_playback_%s_native0" % h
+        m = re.search(r"^test \S*%s \.\.\. (\w+)" % re.escape(tname), nat, re.M)
+        block = ""
+        mb = re.search(r"^---- \S*%s stdout ----\n(.*?)(?=^---- |^failures:)" % re.escape(tname), nat, re.M | re.S)
+        if mb:
+            block = mb.group(1)
+        if not m:
+            out[h] = {"status": "no-result", "tags_hit": [], "output": nat[-1500:]}
+        elif m.group(1) == "ok":
+            out[h] = {"status": "ok", "tags_hit": [], "output": ""}
+        elif "Not enough det vals" in block or re.search(r"panicked at [^\n]*concrete_playback\.rs", block):
+            out[h] = {"status": "unusable", "tags_hit": [], "output": block[:1500]}
+        else:
+            out[h] = {"status": "failed", "tags_hit": re.findall(r"\[(C\d+/[A-Za-z0-9_.-]+)\]", block), "output": block[:2500]}
+    return out
+
+
+def native_concrete(ws, unit, fq_harness, log_dir):
+    """A harness CBMC did not finish, executed natively as the test it is when it draws no
+    symbolic value (empty value stream; `#[kani::stub]`s are not applied natively, the real
+    functions run). A harness that does draw one makes the playback library panic ("Not enough
+    det vals"): then this says nothing (`replay_unusable`)."""
+    short = fq_harness.split("::")[-1]
+    test_src = ("/// the harness `%s` run natively with an empty stream of symbolic values\n"
+                "#[test]\nfn kani_concrete_playback_%s_native0() {\n"
+                "    let concrete_vals: Vec<Vec<u8>> = vec![];\n"
+                "    kani::concrete_playback_run(concrete_vals, %s);\n}\n" % (fq_harness, short, short))
+    env = dict(os.environ)
+    env["CARGO_NET_OFFLINE"] = "true"
+    env.pop("RUSTUP_TOOLCHAIN", None)
+    target = os.path.join(TARGET_DIR, os.path.basename(ws.dir))
+    os.makedirs(log_dir, exist_ok=True)
+    return _run_native_tests(ws, unit, [test_src], log_dir, env, target)
+
+
+def _run_native_tests(ws, unit, tests, log_dir, env, target):
     # one test per failing check; try each until one reproduces
     results = []
     for i, test_src in enumerate(tests):
@@ -403,7 +491,7 @@ def playback(ws, unit, fq_harness, check_ids, timeout_s, log_dir):
         # the playback library itself panics when the recorded byte stream does not fit the
         # harness's any() calls (values sliced away, nondeterministic stubs): such a replay says
         # nothing about the code
-        unusable = "kani/src/concrete_playback.rs" in nat or "could not compile" in nat
+        unusable = "kani/src/concrete_playback.rs" in nat or "could not compile" in nat or "Not enough det vals" in nat
         results.append({"test": tname, "test_src": test_src, "native_tail": nat[-3000:], "tags_hit": tagged,
                         "failed_natively": "test result: FAILED" in nat or bool(panicked), "replay_unusable": unusable})
     if any(r["failed_natively"] and r["tags_hit"] for r in results):
